@@ -156,6 +156,7 @@ func ruleBroker(c *Ctx) {
 	R := c.R
 	p := c.P
 	R.Rule("K1", "the subscriber set is mutated (Ensure/Store/Delete/…) only inside the broker's event-loop goroutine, which handles one request at a time", 2)
+	R.Rule("K2c", "the subscribers a message is sent to are read from the subscriber set in the loop iteration that received the message; nothing but the set itself is carried over from one message to the next", 1)
 	R.Rule("K2", "a dispatch worker handles one message at a time: its loop is Receive → dispatchMessage → next, dispatchMessage sends the received message (not another value) to each subscriber through sendMsg, and the parallel branch waits for all its sends before returning", 3)
 	R.Rule("K3", "Stop reaches the broker's cancel function; the event loop cancels the broker when the distributor is closed", 2)
 	f := p.FuncNamed("pubsub.(*Broker).startQueueWorkers")
@@ -306,6 +307,73 @@ func ruleBroker(c *Ctx) {
 			}
 		}
 		R.Check(ok, "K2", "pubsub.(*Broker).startQueueWorkers/worker", p.Position(worker.Pos()), "for { msg := Receive; dispatchMessage(msg) }", why)
+		// K2c: the targets of a message are read from the subscriber set in the iteration that received it
+		if dcall != nil && len(dcall.Args) >= 2 {
+			var loop *ast.ForStmt
+			for y := p.Parent(dcall); y != nil && y != ast.Node(worker.Lit); y = p.Parent(y) {
+				if fs, isFor := y.(*ast.ForStmt); isFor && loop == nil {
+					loop = fs
+				}
+			}
+			bad, reachesSubs := "", false
+			seen := map[types.Object]bool{}
+			var visit func(e ast.Expr, depth int)
+			visit = func(e ast.Expr, depth int) {
+				if depth > 6 {
+					return
+				}
+				ast.Inspect(e, func(y ast.Node) bool {
+					id, isId := y.(*ast.Ident)
+					if !isId {
+						return true
+					}
+					v, isVar := info.Uses[id].(*types.Var)
+					if !isVar || v.IsField() || seen[v] {
+						return true
+					}
+					seen[v] = true
+					if strings.Contains(v.Type().String(), "adt.Map[") {
+						reachesSubs = true
+						return true
+					}
+					if loop != nil && v.Pos() >= loop.Body.Pos() && v.Pos() < loop.Body.End() {
+						// bound in this iteration: look at everything assigned to it in the loop
+						walkNoLit(loop.Body, func(z ast.Node) bool {
+							if as, isAs := z.(*ast.AssignStmt); isAs {
+								for i, l := range as.Lhs {
+									if lid, isL := l.(*ast.Ident); isL && (info.Defs[lid] == types.Object(v) || info.Uses[lid] == types.Object(v)) {
+										if len(as.Rhs) == len(as.Lhs) {
+											visit(as.Rhs[i], depth+1)
+										} else if len(as.Rhs) == 1 {
+											visit(as.Rhs[0], depth+1)
+										}
+									}
+								}
+							}
+							return true
+						})
+						return true
+					}
+					switch {
+					case typeIs(v.Type(), "context", "Context"), v.Type().String() == "int", v.Type().String() == "bool":
+					default:
+						if _, isSig := v.Type().Underlying().(*types.Signature); !isSig && bad == "" {
+							bad = fmt.Sprintf("%s (%s), declared outside the per-message loop", v.Name(), v.Type().String())
+						}
+					}
+					return true
+				})
+			}
+			visit(dcall.Args[1], 0)
+			switch {
+			case bad != "":
+				R.Fail("K2c", "pubsub.(*Broker).startQueueWorkers/targets", p.Position(dcall.Pos()), "the targets handed to dispatchMessage depend on "+bad+": state carried from one message to the next, so a subscriber can be missed, or reached twice, by one publication")
+			case !reachesSubs:
+				R.Fail("K2c", "pubsub.(*Broker).startQueueWorkers/targets", p.Position(dcall.Pos()), "the targets handed to dispatchMessage are not read from the subscriber set")
+			default:
+				R.OK("K2c", "pubsub.(*Broker).startQueueWorkers/targets", p.Position(dcall.Pos()), "targets = "+exprStr(dcall.Args[1])+", read from the subscriber set per message")
+			}
+		}
 	}
 	if dm := p.FuncNamed("pubsub.(*Broker).dispatchMessage"); dm != nil {
 		dinfo := dm.Info()
